@@ -32,6 +32,7 @@ func checkC15(c *Ctx) {
 	}
 	c.Rule("C15/R7", "where a measurement lands does not depend on the lines before it: in Builder.Add every value is appended to the cell looked up (or created) under that measurement's own table key and the result's (row, column) key — no shortcut through cells remembered from an earlier call (same rule as C14/R2)")
 	c.Rule("C15/R8", "sorted key order cannot silently degrade to map order: flattened-field cache invariant (same rule as C09/R10)")
+	c.Rule("C15/R9", "process-wide caches are keyed by every input of the memoised call, verbatim (same rule as C13/R4, over every function reachable from the command): otherwise what an earlier in-process run asked for leaks into a later run's output")
 	p := mustLoad(c, loadOpts{deep: true}, pats...)
 	fns := p.Funcs(append(append([]string{}, c15Pkgs...), c15Ext...)...)
 	eff := newEffects(p, fns)
@@ -54,6 +55,18 @@ func checkC15(c *Ctx) {
 	}
 	c14Add(c, p, "C15/R7")
 	c09FlatInvariant(c, p, "C15/R8")
+	// R9: process-wide caches on the command's path cannot carry one run's arguments into the next
+	var memoFns []*ssa.Function
+	for _, fn := range p.Funcs(c15Pkgs...) {
+		if reach[fn] {
+			memoFns = append(memoFns, fn)
+		}
+	}
+	nm := checkMemoSites(c, p, "C15/R9", findMemoSites(memoFns), func(s memoSite) bool {
+		// process-wide tables only: a map captured by a closure lives and dies with one call
+		return s.Kind == "global-map" || s.Kind == "sync.Map"
+	})
+	c.Floor("C15/R9", "memo stores reachable from the command", nm, 1)
 }
 
 // c15Reach: functions reachable from the benchstat command (static calls, closures, interface implementations, function values).
